@@ -160,6 +160,9 @@ class IndependentComponentsCopula(LevyCopula):
     """
 
     def __call__(self, us: np.array) -> float:
+        if np.all(us == np.inf):
+            return np.inf
+
         kronecker_symbols = np.zeros_like(us)
         kronecker_symbols[us == np.inf] = 1.0
 
